@@ -14,7 +14,7 @@ pub fn semantics_self_test() -> Result<(), String> {
     let rec = TypeDef { name: "State".into(), record: true, cases: vec![Case { name: "Default".into(), fields: vec![("lock".into(), Ty::Int), ("owner".into(), Ty::Bytes), ("n".into(), Ty::Int)] }] };
     let prog = Program {
         parties: vec!["Sender".into(), "Receiver".into()],
-        assets: vec![Asset { name: "Tok".into(), policy: vec![7; 28], asset_name: b"T".to_vec(), name_as_string: true }],
+        assets: vec![Asset { name: "Tok".into(), policy: vec![7; 28], asset_name: b"T".to_vec(), name_as_string: true, raw_policy: None, raw_asset_name: None }],
         types: vec![rec],
         txs: vec![TxDef {
             name: "transfer".into(),
